@@ -81,6 +81,8 @@ class LoaderSummary:
     containers_created: Dict[str, str] = field(default_factory=dict)    # var -> creating expression text
     problems: List[Tuple[str, int]] = field(default_factory=list)
     absence: List[Tuple[Optional[Path], str, int]] = field(default_factory=list)   # (looked-up path, decision, line)
+    forbid_guards: List[Tuple[str, List[str], Optional[str], int]] = field(default_factory=list)
+    # (data var, tests of the ifs that enclose the unknown-key computation, test guarding the rejection, line)
 
 
 def access_try_scopes(fn: ast.FunctionDef, prefixes=("loader_", "dumper_")) -> List[Tuple[str, str, int]]:
@@ -227,6 +229,18 @@ def audit_loader(fn: ast.FunctionDef) -> LoaderSummary:
                     if isinstance(val, ast.BinOp) and isinstance(val.op, ast.Sub) and isinstance(val.left, ast.Call) \
                             and norm(val.left.func) == "set" and val.left.args:
                         S.forbid_checks.append((norm(val.left.args[0]), norm(val.right), st.lineno))
+                        encl = []
+                        p_ = parents.get(id(st))
+                        while p_ is not None and p_ is not fn:
+                            if isinstance(p_, ast.If):
+                                encl.append(norm(p_.test))
+                            p_ = parents.get(id(p_))
+                        # the statement that uses the set: `if <set>: raise/collect ExtraFieldsLoadError(<set>, data)`
+                        blk = _block_of(parents.get(id(st)), st)
+                        nxt = blk[blk.index(st) + 1] if blk and blk.index(st) + 1 < len(blk) else None
+                        guard = norm(nxt.test) if isinstance(nxt, ast.If) and "ExtraFieldsLoadError" in norm(nxt) else (
+                            "<unconditional>" if nxt is not None and "ExtraFieldsLoadError" in norm(nxt) else None)
+                        S.forbid_guards.append((name, encl, guard, st.lineno))
                     else:
                         S.problems.append((f"unrecognised extra-set computation: {norm(st)}", st.lineno))
                     continue
